@@ -164,9 +164,14 @@ def run(ctx):
         nd = rng.randint(2, min(8, len(alld)))
         chosen = rng.sample(alld, nd)
         aufbau = (tuple([1] * ne[0] + [0] * (norb - ne[0])), tuple([1] * ne[1] + [0] * (norb - ne[1])))
-        ref_mode = "aufbau" if i % 2 == 0 else "other"
+        ref_mode = ("aufbau", "other", "top")[i % 3]
         if ref_mode == "aufbau":
             chosen = [aufbau] + [d for d in chosen if d != aufbau]
+        elif ref_mode == "top":
+            # reference on the highest orbitals, aufbau determinant in the list: all electrons move down (nested patterns)
+            top = (tuple([0] * (norb - ne[0]) + [1] * ne[0]), tuple([0] * (norb - ne[1]) + [1] * ne[1]))
+            chosen = [top] + ([aufbau] if aufbau != top else []) + [d for d in chosen if d not in (aufbau, top)]
+            ref_mode = "other"
         else:
             chosen = [d for d in chosen if d != aufbau]
             if not chosen:
